@@ -38,6 +38,57 @@ type Link struct {
 	hdrLen uint16
 	out    []Frame
 	total  int
+	// context for the frame tap (C06): the stack and NIC this link is attached to
+	Stack *stack.Stack
+	NIC   tcpip.NICID
+}
+
+// Tap, when set, sees every frame any stack emits through a Link, with the route it was sent on;
+// InjectTap sees every packet delivered to a stack (C06 records them to recognise answers).
+var (
+	Tap       func(l *Link, r *stack.Route, f Frame)
+	InjectTap func(l *Link, proto tcpip.NetworkProtocolNumber, b []byte)
+	routes    = map[*stack.Stack][]tcpip.Route{}
+	ports     = map[*stack.Stack]map[uint16]bool{}
+	regMu     sync.Mutex
+)
+
+// CreateNIC creates the NIC and remembers which stack / NIC the link belongs to.
+func CreateNIC(s *stack.Stack, id tcpip.NICID, lid tcpip.LinkEndpointID, l *Link) *tcpip.Error {
+	l.Stack, l.NIC = s, id
+	return s.CreateNIC(id, lid)
+}
+
+// SetRoutes installs the route table and remembers it.
+func SetRoutes(s *stack.Stack, rt []tcpip.Route) {
+	regMu.Lock()
+	routes[s] = rt
+	regMu.Unlock()
+	s.SetRouteTable(rt)
+}
+
+// Routes returns the table last installed with SetRoutes.
+func Routes(s *stack.Stack) []tcpip.Route {
+	regMu.Lock()
+	defer regMu.Unlock()
+	return routes[s]
+}
+
+// NotePort records a local port some socket of the stack is bound to.
+func NotePort(s *stack.Stack, p uint16) {
+	regMu.Lock()
+	if ports[s] == nil {
+		ports[s] = map[uint16]bool{}
+	}
+	ports[s][p] = true
+	regMu.Unlock()
+}
+
+// PortNoted reports whether NotePort was called for the port.
+func PortNoted(s *stack.Stack, p uint16) bool {
+	regMu.Lock()
+	defer regMu.Unlock()
+	return ports[s][p]
 }
 
 func NewLink(mtu uint32, addr tcpip.LinkAddress, caps stack.LinkEndpointCapabilities) (tcpip.LinkEndpointID, *Link) {
@@ -65,6 +116,9 @@ func (l *Link) WritePacket(r *stack.Route, hdr buffer.Prependable, payload buffe
 	l.total++
 	l.cond.Broadcast()
 	l.mu.Unlock()
+	if Tap != nil {
+		Tap(l, r, f)
+	}
 	return nil
 }
 
@@ -110,6 +164,9 @@ func (l *Link) Inject(proto tcpip.NetworkProtocolNumber, from tcpip.LinkAddress,
 		size += len(v)
 	}
 	vv := buffer.NewVectorisedView(size, vs)
+	if InjectTap != nil {
+		InjectTap(l, proto, vv.ToView())
+	}
 	l.disp.DeliverNetworkPacket(l, from, l.addr, proto, vv)
 }
 
